@@ -143,6 +143,13 @@ func expectVerdict(rule string, k reflect.Kind, t Trace, nE int) specResult {
 			return r
 		}
 		p, ok := one(findAtoms(t, reParseIPNil))
+		if !ok && rule == "ipv4" {
+			// ParseIP(s).To4() != nil alone: To4 of the nil IP (text that does not parse) is nil, so the test of the
+			// parse result itself is implied
+			if q, okq := one(findAtoms(t, reTo4Nil)); okq {
+				return specResult{Viol: b2t(q.Val == 1)}
+			}
+		}
 		if !ok {
 			return specResult{Viol: triUnknown, Why: "expected net.ParseIP(tv.String()) compared with nil"}
 		}
